@@ -14,6 +14,8 @@ impl GenerationPass for LivenessPass {
         #[allow(clippy::mutable_key_type)]
         let mut visited = HashSet::new();
         while changed {
+            #[cfg(riscv_analysis_verif)]
+            crate::verif::tick("liveness-sweep");
             changed = false;
             for node in cfg.iter().rev() {
                 // live_out[n] = U live_in[s] for all s in next[n]
